@@ -4,6 +4,7 @@
 From Coq Require Import Init.Byte ZArith List Bool.
 Require Import Ojg.Base.Bytes Ojg.Json.Machine Ojg.Json.Ref Ojg.Json.Sweep Ojg.Json.Frontends.
 Require Import Ojg.Json.Sweep_parser Ojg.Json.Sweep_validator Ojg.Json.Sweep_tokenizer Ojg.Json.Sweep_gen.
+Require Import Ojg.Base.Jv Ojg.Json.DataInv Ojg.Json.DSweeps.
 Import ListNotations.
 
 Definition C06_control (K : cfg) : Prop :=
@@ -22,5 +23,46 @@ Proof. exact (ctl_never_faults false fe_parser_multi sweep_parser_multi). Qed.
 Theorem C06_gen_multi : C06_control fe_gen_multi.
 Proof. exact (ctl_never_faults false fe_gen_multi sweep_gen_multi). Qed.
 
+(* The whole machine (control + value stack + number and string buffers + hand-off of finished
+   documents), for every input and every way of cutting it into read buffers: the outcome is
+   never a runtime fault. Covers add() writing into the map under a pending key, the slice
+   bounds of closeArray, p.stack[0] at the hand-off, p.stack[len-1] at closeObject and the
+   escape-byte table. *)
+Definition C06_machine (K : cfg) : Prop :=
+  (forall w, parse_bytes K w <> OFault) /\ (forall cs, parse_chunks K cs <> OFault).
+
+Theorem C06_machine_parser : C06_machine fe_parser.
+Proof. exact (conj (parse_bytes_never_faults true fe_parser sweep_parser dsweep_parser)
+                   (parse_chunks_never_faults true fe_parser sweep_parser dsweep_parser)). Qed.
+Theorem C06_machine_validator : C06_machine fe_validator.
+Proof. exact (conj (parse_bytes_never_faults true fe_validator sweep_validator dsweep_validator)
+                   (parse_chunks_never_faults true fe_validator sweep_validator dsweep_validator)). Qed.
+Theorem C06_machine_tokenizer : C06_machine fe_tokenizer.
+Proof. exact (conj (parse_bytes_never_faults true fe_tokenizer sweep_tokenizer dsweep_tokenizer)
+                   (parse_chunks_never_faults true fe_tokenizer sweep_tokenizer dsweep_tokenizer)). Qed.
+Theorem C06_machine_gen : C06_machine fe_gen.
+Proof. exact (conj (parse_bytes_never_faults true fe_gen sweep_gen dsweep_gen)
+                   (parse_chunks_never_faults true fe_gen sweep_gen dsweep_gen)). Qed.
+Theorem C06_machine_parser_multi : C06_machine fe_parser_multi.
+Proof. exact (conj (parse_bytes_never_faults false fe_parser_multi sweep_parser_multi dsweep_parser_multi)
+                   (parse_chunks_never_faults false fe_parser_multi sweep_parser_multi dsweep_parser_multi)). Qed.
+Theorem C06_machine_validator_multi : C06_machine fe_validator_multi.
+Proof. exact (conj (parse_bytes_never_faults false fe_validator_multi sweep_validator_multi dsweep_validator_multi)
+                   (parse_chunks_never_faults false fe_validator_multi sweep_validator_multi dsweep_validator_multi)). Qed.
+Theorem C06_machine_tokenizer_multi : C06_machine fe_tokenizer_multi.
+Proof. exact (conj (parse_bytes_never_faults false fe_tokenizer_multi sweep_tokenizer_multi dsweep_tokenizer_multi)
+                   (parse_chunks_never_faults false fe_tokenizer_multi sweep_tokenizer_multi dsweep_tokenizer_multi)). Qed.
+Theorem C06_machine_gen_multi : C06_machine fe_gen_multi.
+Proof. exact (conj (parse_bytes_never_faults false fe_gen_multi sweep_gen_multi dsweep_gen_multi)
+                   (parse_chunks_never_faults false fe_gen_multi sweep_gen_multi dsweep_gen_multi)). Qed.
+
+(* non-vacuity: the machine does run, and does build through every kind of frame *)
+Example C06_machine_runs :
+  parse_bytes fe_parser (map (fun n => n2b n) [123; 34; 97; 34; 58; 91; 49; 44; 123; 125; 93; 125]%N)
+  = OOk [JObj [([x61], JArr [JInt 1; JObj []])]] [].
+Proof. vm_compute. reflexivity. Qed.
+
 Print Assumptions C06_parser.
+Print Assumptions C06_machine_parser.
+Print Assumptions C06_machine_gen_multi.
 Print Assumptions C06_gen.
